@@ -3,7 +3,7 @@
 From LC Require Import Lib.Bytes Lib.Lex Lib.Fields Lib.PathM Gen.Consts
   Model.MountInfo Model.FsTree Model.Kernel Model.Layers Cases.Verdict Cases.LC Cases.C08
   Proofs.MonadP Proofs.MountInfoP Proofs.PlainRunP Proofs.LayerMapP Proofs.LayerStateP
-  Proofs.ForestP Proofs.ViewP Proofs.C08FoldP Proofs.C08DocP Proofs.C08P.
+  Proofs.ForestP Proofs.ViewP Proofs.C08FoldP Proofs.C08DocP Proofs.C08P Proofs.LayerNamesP.
 From Coq Require Import Sorting.Permutation.
 Open Scope N_scope.
 Import LC LCS.
@@ -145,10 +145,9 @@ Definition dir_test_agrees (c : cfgT) (w : wobs) : bool :=
 (* no foreign mount on an import mountpoint whose host source directory is missing *)
 Definition no_foreign_on_missing_source (c : cfgT) (w : wobs) : bool :=
   all_imports (no_foreign_one c (wo_fs w) (ks_tab (wo_ks w))) c (wo_fs w).
-(* layer names: distinct and non-empty *)
-Definition layer_names_ok (c : cfgT) (w : wobs) : bool :=
-  nodup_paths (map l_name (layers_on_disk c (wo_fs w)))
-  && forallb (fun x => negb (beq (l_name x) [])) (layers_on_disk c (wo_fs w)).
+(* no two layer directories with the same name *)
+Definition layer_names_distinct (c : cfgT) (w : wobs) : bool :=
+  nodup_paths (map l_name (layers_on_disk c (wo_fs w))).
 
 Lemma nodup_paths_NoDup l : nodup_paths l = true -> NoDup l.
 Proof.
@@ -301,7 +300,7 @@ Qed.
 Theorem state_is_documented_partial cfg w e um :
   wf_table (ks_tab (wo_ks w)) = true ->
   cfg_dirs_ok cfg = true ->
-  layer_names_ok cfg w = true ->
+  layer_names_distinct cfg w = true ->
   sources_agree cfg w = true ->
   dir_test_agrees cfg w = true ->
   no_foreign_on_missing_source cfg w = true ->
@@ -329,11 +328,9 @@ Proof.
   unfold probe_of in Hp. fold tab in Hp. rewrite (probe_render tab Hwt) in Hp.
   destruct (view_spec tab) as (ms' & Hv & Hms). rewrite Hv in Hp. injection Hp as <- <-.
   (* names *)
-  unfold layer_names_ok, layers_on_disk in Hnames. fold f m in Hnames.
-  apply andb_true_iff in Hnames as [Hnd Hne]. apply nodup_paths_NoDup in Hnd.
-  assert (Hne' : forall x, In x m -> l_name x <> []).
-  { intros x Hx. rewrite forallb_forall in Hne. specialize (Hne x Hx). apply negb_true_iff in Hne.
-    now apply beq_false in Hne. }
+  unfold layer_names_distinct, layers_on_disk in Hnames. fold f m in Hnames.
+  pose proof (nodup_paths_NoDup _ Hnames) as Hnd.
+  assert (Hne' : forall x, In x m -> l_name x <> []) by (intros x Hx; now apply (read_layer_files_names cfg f)).
   pose proof (all_imports_and _ _ _ cfg f Hsrc Hdt Hnf) as Himp. unfold layers_on_disk in Himp. fold m in Himp.
   pose proof (normalize_order_perm m o Ho) as Hperm.
   set (ld1 := MkLD (map (fun l => set_overlain l (memb (build_path cfg l)
